@@ -2,6 +2,7 @@
 expects at least one entity (non-trivial).  One JSON line per test, one file per (xdist) process."""
 import json
 import os
+import threading
 
 import pytest
 
@@ -32,3 +33,26 @@ def pytest_runtest_makereport(item, call):
         if rep.outcome == 'failed':
             rec['longrepr'] = str(rep.longrepr)[-1500:]
         _write(rec)
+
+
+@pytest.hookimpl(tryfirst=True)
+def pytest_pyfunc_call(pyfuncitem):
+    """VRF_C19_THREAD=1: every spec case is executed on a fresh thread (as a request handler of a threaded server would): thread-local
+    defaults (decimal context ...) are then those of a new thread, not those the importing thread was left with"""
+    if not os.environ.get('VRF_C19_THREAD'):
+        return None
+    fn = pyfuncitem.obj
+    args = {a: pyfuncitem.funcargs[a] for a in pyfuncitem._fixtureinfo.argnames}
+    box = []
+
+    def body():
+        try:
+            fn(**args)
+        except BaseException as e:      # noqa: BLE001 - re-raised in the main thread below
+            box.append(e)
+    t = threading.Thread(target=body)
+    t.start()
+    t.join()
+    if box:
+        raise box[0]
+    return True
